@@ -1,6 +1,7 @@
 
-// ===== appended by /verif (cfg(kani) only): drop-free Queryable instances for Kani harnesses =====
-#[cfg(kani)]
+// ===== appended by /verif (cfg(kani) / cfg(besok_jsonpath_rust_verif) only): drop-free Queryable instances for Kani harnesses =====
+#[cfg(any(kani, besok_jsonpath_rust_verif))]
+#[allow(dead_code, unused_imports, unused_macros)]
 pub(crate) mod verif_k {
     use crate::query::queryable::Queryable;
 
@@ -99,5 +100,30 @@ pub(crate) mod verif_k {
             (S::Float(x), S::Float(y)) => Some(if x < y { Ord3::Less } else if x == y { Ord3::Equal } else { Ord3::Greater }),
             _ => None,
         }
+    }
+
+    // ---- native replay of a Kani counterexample: a stand-in for the `kani` crate that feeds the concrete
+    // bytes Kani printed (one little-endian byte vector per kani::any()) to the SAME harness, compiled natively
+    // against the real code.  An assertion that fails natively is the replayed violation.
+    #[cfg(not(kani))]
+    pub mod kani {
+        use std::cell::RefCell;
+        use std::collections::VecDeque;
+        thread_local! { static Q: RefCell<VecDeque<Vec<u8>>> = RefCell::new(VecDeque::new()); }
+        pub fn set_inputs(v: Vec<Vec<u8>>) { Q.with(|q| *q.borrow_mut() = v.into_iter().collect()); }
+        pub trait Arb: Sized { fn from_le(b: &[u8]) -> Self; }
+        impl Arb for bool { fn from_le(b: &[u8]) -> Self { b[0] & 1 == 1 } }
+        impl Arb for u8 { fn from_le(b: &[u8]) -> Self { b[0] } }
+        impl Arb for i8 { fn from_le(b: &[u8]) -> Self { b[0] as i8 } }
+        impl Arb for i64 { fn from_le(b: &[u8]) -> Self { let mut a = [0u8; 8]; a.copy_from_slice(&b[..8]); i64::from_le_bytes(a) } }
+        impl Arb for usize { fn from_le(b: &[u8]) -> Self { let mut a = [0u8; 8]; a.copy_from_slice(&b[..8]); usize::from_le_bytes(a) } }
+        impl Arb for f64 { fn from_le(b: &[u8]) -> Self { let mut a = [0u8; 8]; a.copy_from_slice(&b[..8]); f64::from_le_bytes(a) } }
+        pub fn any<T: Arb>() -> T {
+            Q.with(|q| { let v = q.borrow_mut().pop_front().expect("replay: not enough concrete values"); T::from_le(&v) })
+        }
+        /// an assumption that does not hold under replay means the concrete values do not belong to this harness
+        pub fn assume(c: bool) { if !c { std::panic::panic_any("replay-diverged: assumption violated"); } }
+        macro_rules! __verif_cover { ($($t:tt)*) => {}; }
+        pub(crate) use __verif_cover as cover;
     }
 }
